@@ -93,11 +93,43 @@ def family():
     return c
 
 
+def file_exactness_under_cuts(rep):
+    """the stored object is exactly the file part for EVERY two-frame cut of the body (contents with CR/LF runs, a form field
+    after the file): native sweep, validation only (the multipart parser does not fit CBMC)"""
+    import time
+    from vlib import replay
+    t0 = time.time()
+    n = 0
+    for content in (b"first line\r\nsecond line\r\n", b"\r\r\r\n\r\n\r", b"a\r\n--" + A.BOUNDARY.encode()[:12] + b"\r\nb", b"\x00\xff\r"):
+        rq = A.post_form(content=content, trailing_fields=[("submit", "Upload to Amazon S3")])
+        body = bytes.fromhex(rq["body"])
+        fstart = body.find(b"filename=")
+        scs = []
+        for c in range(fstart, len(body)):
+            r2 = {k: v for k, v in rq.items() if k != "body"}
+            r2["body_frames"] = [body[:c].hex(), body[c:].hex()]
+            scs.append({"config": sigprops.CFG, "request": r2})
+        outs = replay.run_scenarios(scs)
+        n += len(outs)
+        for c, o in zip(range(fstart, len(body)), outs):
+            oc = sigprops.outcome(o)
+            if not oc["accepted"] or (oc["body"] or {}).get("ok") != content.hex():
+                res = rep.violation("post:file-exactness-under-cut", "form upload cut after %d of %d bytes: the backend received %s instead of the %d file bytes (status %s)" % (
+                    c, len(body), str(oc["body"])[:160], len(content), oc["status"]), rep.save_cex("post_cut", {"cut": c, "content": content.hex(), "observed": oc}), confirmed=True)
+                rep.obligation("file exactness under cuts", "replayer", res, time.time() - t0)
+                rep.traces_validated += n
+                return
+    rep.traces_validated += n
+    rep.obligation("file exactness: %d uploads (4 contents with CR/LF runs and boundary look-alikes x every two-frame cut, a field after the file) store exactly the file bytes" % n,
+                   "replayer(native sweep; not solver-decided)", "holds", time.time() - t0, queries=n)
+
+
 def run(rep, tier):
     rep.encoded("crates/s3s/src/ops/signature.rs", "SignatureContext::check, v4_check_post_signature (all paths)")
     rep.encoded("crates/s3s/src/sig_v4/post_signature.rs", "PostSignatureInfo::extract (uninterpreted)")
     sigprops.check_paths(rep, "post", "C10 paths")
     field_mapping(rep)
     sigprops.run_family(rep, "C10", family(), label="post form family")
+    file_exactness_under_cuts(rep)
     rep.out("file exactness for arbitrary contents is validated by the family only (the multipart parser does not fit CBMC); "
             "policy grammar itself (the adapter does not evaluate policies: known finding)")
